@@ -210,3 +210,28 @@ def x_generator(rows: list, extra: list, k: int, w: int):
         buf = [*extra, *rows]
         for row in buf[-(len(rows) + k) : -k]:
             yield (row + [7] * (w - len(row)))[:w]
+
+
+def x_iter_next(items: list, d: int, k: int):
+    # iter() / next() over sequences (ListBox._keypress_max_left: next(iter(positions))): first elements, default,
+    # StopIteration, exhaustion, a live list iterator, iter(it) is it
+    it = iter(items)
+    try:
+        a = next(it)
+    except StopIteration:
+        a = -100
+    b = next(it, d)
+    c = next(iter(reversed(items)), d)
+    r = iter(range(k, 3))
+    e = next(r, d)
+    f = next(iter(r), d)
+    t = iter((d, k))
+    g = (next(t), next(t), next(t, 7), next(t, 8))
+    items.append(d)
+    h = next(it, -5)
+    try:
+        z = next(iter(()))
+    except StopIteration:
+        z = -7
+    return (a, b, c, e, f, g, h, z)
+
